@@ -37,6 +37,8 @@ type Ctx struct {
 	openingHex  string // what the watcher will deliver when the peer is maker
 	openingTxid string
 	openWant    *swap.OpeningParams // what the last announced opening transaction should pay to (C01 ground truth)
+	lqTruth     bool                // Elements transactions (real Liquid validator in place): truth by construction
+	lqTruthSet  bool
 	log         []string
 	panics      []string
 }
@@ -122,6 +124,9 @@ func (c *Ctx) openingPays(txHex string) bool {
 	if c.openWant == nil {
 		return false
 	}
+	if c.lqTruthSet && c.chain == "lbtc" {
+		return c.lqTruth && txHex == c.openingHex
+	}
 	raw, err := hex.DecodeString(txHex)
 	if err != nil {
 		return false
@@ -201,6 +206,9 @@ func (c *Ctx) Step(step string) string {
 		asset, network := "", ""
 		if c.chain == "lbtc" {
 			asset = lbtcAsset
+			if w.rw != nil {
+				asset = w.rw.lq.GetAsset() // the real Liquid adapter names its network's policy asset
+			}
 		} else {
 			network = "regtest"
 		}
@@ -309,7 +317,23 @@ func (c *Ctx) Step(step string) string {
 		if w.rw != nil && c.chain == "lbtc" {
 			// the real Liquid validator is in place: a real Elements transaction
 			p.BlindingKey = detKey("blinding")
-			txHex, txid, err = buildOpeningLq(p, csv, pos, amount)
+			kind, policy := "C", true
+			switch a["lq"] {
+			case "explicit":
+				kind = "E"
+			case "otherasset":
+				policy = false
+			case "explicit-otherasset":
+				kind, policy = "E", false
+			case "wrongblind":
+				kind = "W"
+			case "lying":
+				kind = "L"
+			}
+			txHex, txid, err = buildOpeningLq(p, csv, pos, amount, kind, policy)
+			// ground truth by construction: the output pays iff nothing about it was made wrong
+			c.lqTruth = a["tx"] == "" && (a["lq"] == "" || a["lq"] == "explicit")
+			c.lqTruthSet = true
 		}
 		if err != nil {
 			return "build-error"
